@@ -50,7 +50,7 @@ def run(chk):
     samples = []
     try:
         # ---------------- numscript run
-        n = 150 if chk.tier == "quick" else 2500
+        n = chk.size(150, 2500)
         cases, gens = P.make_cases("C20", chk.seed, n, profile_override={"origins": 0.4, "stmts_max": 3})
         for c in cases:
             c["store"] = "static"
@@ -122,7 +122,7 @@ def run(chk):
         stats["programs"] += len(cases)
 
         # ---------------- numscript check
-        m = 120 if chk.tier == "quick" else 2000
+        m = chk.size(120, 2000)
         texts = []
         for i in range(m):
             c, g = gen_check.valid_script(chk.seed + 9, i, {"stmts_max": 2})
